@@ -14,6 +14,7 @@ HINT = {
  "C10": "io/src/common.rs, io/src/blocking/recv.rs, io/src/async_/recv.rs",
 }
 files = HINT.get(pid, "base/src/traits.rs, base/src/utils/*.rs, base/src/emplacer.rs, base/src/wrap.rs, base/src/bytes.rs, containers/src/{vec,string,flex}.rs, portable/src/*.rs, macros/src/items/*.rs")
+extra = (" " + os.environ["PROMPT_EXTRA"]) if os.environ.get("PROMPT_EXTRA") else ""
 os.makedirs(out, exist_ok=True)
 if not os.path.isdir(wt):
     subprocess.check_call(["git", "-C", "/repo", "worktree", "add", "--detach", wt, "HEAD"], stdout=subprocess.DEVNULL)
@@ -25,7 +26,7 @@ Here is a semantic property the library is supposed to satisfy:
 Statement: {prop['statement']}
 Quantified over: {prop['quantifier']['text']}
 
-YOUR TASK: make a small, realistic change (the kind of slip a maintainer could make while refactoring: an off-by-one, a wrong rounding, an operation order swapped, a stale value reused, a check dropped or inverted for one corner case, a cursor advanced by the wrong amount in one branch, a bound relaxed, two places that state the same fact drifting apart ...) to the library SOURCE — candidates: {files} — NOT the tests — that BREAKS this property, while (a) the whole workspace still compiles and (b) the ENTIRE existing test suite still passes (run it; for IO changes several times). The breakage must need something specific to manifest (a particular input / type shape / buffer length / multi-step sequence / chunking / Pending placement / error placement / two cooperating sites that each look fine alone), NOT something ordinary use would expose at once. Prefer something RARE and SUBTLE: a reviewer reading the diff should find it plausible.
+YOUR TASK: make a small, realistic change (the kind of slip a maintainer could make while refactoring: an off-by-one, a wrong rounding, an operation order swapped, a stale value reused, a check dropped or inverted for one corner case, a cursor advanced by the wrong amount in one branch, a bound relaxed, two places that state the same fact drifting apart ...) to the library SOURCE — candidates: {files} — NOT the tests — that BREAKS this property, while (a) the whole workspace still compiles and (b) the ENTIRE existing test suite still passes (run it; for IO changes several times). The breakage must need something specific to manifest (a particular input / type shape / buffer length / multi-step sequence / chunking / Pending placement / error placement / two cooperating sites that each look fine alone), NOT something ordinary use would expose at once. Prefer something RARE and SUBTLE: a reviewer reading the diff should find it plausible.{extra}
 
 The following changes have ALREADY been tried by others; do not repeat any of them or a trivial variant (same site and same mechanism). Find a different site or a different mechanism:
 {chr(10).join(tried)}
